@@ -26,12 +26,13 @@ for pid in sys.argv[1:]:
             else:
                 shutil.copy(f, d / f.name)
         meta = {
-            "property": pid,
+            "property": pid.split('-')[-1],
+            **({"round": int(pid[1])} if pid[0] == 'R' and pid[1].isdigit() else {}),
             "source": "independent sub-agent given only the property text and a scratch worktree (nothing from /verif)",
             "summary": m.get("summary"),
             "why_it_breaks": m.get("why_it_breaks"),
             "needs_to_manifest": m.get("needs_to_manifest"),
-            "base_commit": "9c75944 (/repo HEAD with the fix: commits)",
+            "base_commit": m.get("base_commit_override") or "9c75944 (/repo HEAD with the fix: commits)",
             "demo_cmd_in_worktree": m.get("demo_cmd"),
             "confirmed_by_me": {
                 "what_i_ran": "python3 /verif/confirm_seeds.py " + pid + "  (scratch worktree /tmp/wt/" + pid + ": demo on clean tree, git apply patch.diff, demo again, full pytest suite with --junitxml compared with BASELINE.stable_pass, git checkout)",
